@@ -65,7 +65,7 @@ def instances(rng):
 
 def one_case(ctx: Ctx, stream: str, i: int) -> None:
     rng = ctx.rng(stream, i)
-    probe_ops(ctx, stream, i, instances(rng))
+    probe_ops(ctx, stream, i, instances(rng) + [gen.toeplitz_grid(5 * i + k, rng)[0] for k in range(5)])
 
 
 def composites(rng):
